@@ -300,6 +300,33 @@ def reinit(prog, res):
     res.need(R, 3)
 
 
+def seek_table_writer_is_resumable(prog, res):
+    """T3: ZSTD_seekable_endStream may be called with output buffers of any size: the seek table writer stops anywhere, even inside a
+    32-bit word, and resumes from fl->seekTablePos.  Every statement that advances seekTablePos (other than the resets to 0) is
+    therefore reached only through a test of seekTablePos itself - the position decides what is written next, not the room that
+    happens to be left - and the table's words are written by the resumable ZSTD_stwrite32 only (no direct store into the output)."""
+    R = "T3.seek-table-writer-resumable"
+    n = 0
+    for f in prog.fns_in("seekable_format/zstdseek_compress.c"):
+        adv = [(b, i) for b, i, x in f.events(lambda y: (y.get("k") == "asg" and strip_casts(y["lhs"]).get("k") == "mem" and strip_casts(y["lhs"]).get("f") == "seekTablePos"
+                                                          and not (y.get("op") == "=" and const_val(y["rhs"]) == 0))
+                                               or (y.get("k") == "un" and y.get("op", "").endswith(("++", "--")) and strip_casts(y["e"]).get("f") == "seekTablePos"))]
+        if not adv:
+            continue
+        tests = [(bid, s_) for bid, cond, t, fl in f.branches() if any(y.get("k") == "mem" and y.get("f") == "seekTablePos" for y in f.walk_resolved(f.resolve_x(cond))) for s_ in (t, fl)]
+        for a in adv:
+            n += 1
+            res.check(bool(tests) and f.must_pass(via_edges=tests, targets=[a]), R, "%s:advance@%s" % (f.name, f.blocks[a[0]]["el"][a[1]].get("l")), f.loc,
+                      "seekTablePos advances only after a test of seekTablePos",
+                      "%s advances seekTablePos on a path that never looked at it: a call that resumes inside an entry (small output buffers) writes that entry again "
+                      "in full, the position overshoots, footer words are skipped and ZSTD_seekable_endStream still reports completion - the archive cannot be read back" % f.name)
+    w = prog.fn("ZSTD_seekable_writeSeekTable")
+    direct = [c.get("c") for b, i, c in w.calls(("MEM_writeLE32", "MEM_writeLE64", "MEM_writeLE16", "memcpy", "__builtin_memcpy"))]
+    res.check(not direct and len(w.call_roots("ZSTD_stwrite32")) >= 5, R, "writeSeekTable:words-through-the-resumable-writer", w.loc,
+              "every 32-bit word of the table goes through ZSTD_stwrite32", "ZSTD_seekable_writeSeekTable stores table words directly (%s): such a store cannot resume inside a word" % direct)
+    res.need(R, 3)
+
+
 def run(tier):
     res = Result("C20", tier)
     tus, info = extract(["seekable", "common", "compress", "decompress"])
@@ -312,6 +339,7 @@ def run(tier):
     compressor(prog, res)
     witnesses(prog, res)
     reinit(prog, res)
+    seek_table_writer_is_resumable(prog, res)
     t4_common.run(prog, res, "T4.error-discipline", ["contrib/seekable_format/"], 12)
     # reading at or beyond the end: `eos - offset` is only computed when offset < eos
     f = prog.fn("ZSTD_seekable_decompress")
